@@ -176,19 +176,27 @@ def check_publish(ctx):
     return loop
 
 
+def stateless_dump_field(ctx, cls, field):
+    """self.<field> is only ever assigned a module-level dump function (pickle.dump ...)."""
+    exprs = []
+    for m in methods(cls).values():
+        for n in A.walk_local(m):
+            if isinstance(n, ast.Assign) and any(A.is_self_attr(t, field) for t in n.targets):
+                exprs.append(n.value)
+    if not exprs:
+        return None
+    return all(ctx.res.canon(e) in ("pickle.dump", "cPickle.dump", "_pickle.dump", "pickle.load", "cPickle.load")
+               or (isinstance(e, ast.Attribute) and A.src(e) in ("cPickle.dump", "cPickle.load")) for e in exprs)
+
+
 def check_order(ctx, loop):
     fn = ctx.tree.func(MOD, "Cache._dump_flow_and_yield")
+    cls = ctx.tree.cls(MOD, "Cache")
     var = loop.target.id if isinstance(loop.target, ast.Name) else None
     if not ctx.require(var is not None, "C18-b", loop, "loop target is not a name"):
         return
-    # calls that dump the value: self._dump(val, ...) directly or through a local lambda/def that calls self._dump
-    dumpers = {"self._dump"}
-    for n in A.walk_local(fn):
-        if isinstance(n, ast.Assign) and isinstance(n.value, ast.Lambda) and len(n.targets) == 1 and isinstance(n.targets[0], ast.Name):
-            body = n.value.body
-            if isinstance(body, ast.Call) and A.src(body.func) == "self._dump":
-                dumpers.add(n.targets[0].id)
     n_paths = 0
+    dump_calls = []
     for p in P.loop_body_paths(loop):
         ys = [(i, y) for i, y in p.yields() if isinstance(y, ast.Yield) and isinstance(y.value, ast.Name) and y.value.id == var]
         if not ys:
@@ -198,15 +206,56 @@ def check_order(ctx, loop):
             continue
         n_paths += 1
         yi = ys[0][0]
-        dumped = False
+        dumped = None
         for e in p.ev[:yi]:
             if e[0] == "stmt":
                 for c in A.walk_local(e[1]):
-                    if isinstance(c, ast.Call) and A.src(c.func) in dumpers and c.args and A.src(c.args[0]) == var:
-                        dumped = True
-        ctx.check("C18-b", dumped, ys[0][1], "the writer yields the value before dumping it [%s]: if a downstream element fails on this "
-                  "value it is missing from the stored flow" % p.describe(), detail="dump(%s) precedes `yield %s`" % (var, var), path=p)
+                    if isinstance(c, ast.Call) and any(A.src(a) == var for a in c.args):
+                        dumped = c
+        if dumped is not None:
+            dump_calls.append(dumped)
+        ctx.check("C18-b", dumped is not None, ys[0][1], "the writer yields the value before storing it [%s]: if a downstream element "
+                  "fails on this value, or the consumer stops here, it is missing from the stored flow" % p.describe(),
+                  detail="a call storing `%s` precedes `yield %s`" % (var, var), path=p)
     ctx.instances_floor("C18-b", n_paths, 1, "paths through the writer's loop")
+    # each value is serialised on its own: the dump callee is a stateless function, not a method of a serialiser
+    # object that lives across the loop (a Pickler memoises objects by identity: a value object that is mutated
+    # and yielded again would be stored as a reference to its first state)
+    for c in dump_calls[:1]:
+        f = c.func
+        verdict = None
+        if A.is_self_attr(f):
+            verdict = stateless_dump_field(ctx, cls, f.attr)
+        elif isinstance(f, ast.Name):
+            lam = [n.value for n in A.walk_local(fn) if isinstance(n, ast.Assign) and isinstance(n.value, ast.Lambda)
+                   and any(isinstance(t, ast.Name) and t.id == f.id for t in n.targets)]
+            if len(lam) == 1 and isinstance(lam[0].body, ast.Call) and A.is_self_attr(lam[0].body.func):
+                verdict = stateless_dump_field(ctx, cls, lam[0].body.func.attr)
+            bound = [n for n in A.walk_local(fn) if isinstance(n, ast.Assign) and isinstance(n.value, ast.Attribute)
+                     and isinstance(n.value.value, ast.Call) and any(isinstance(t, ast.Name) and t.id == f.id for t in n.targets)]
+            if bound and all(loop not in list(A.ancestors(n)) for n in bound):
+                ctx.violation("C18-b", c, "values are stored through `%s`, a bound method of the object `%s` created once outside "
+                              "the loop: a stateful serialiser (pickle.Pickler memo) records a value object that is yielded again "
+                              "after being changed as a reference to its first state, so later runs replay different values"
+                              % (f.id, A.short(bound[0].value.value, 50)), construct="stateful-serialiser:%s" % A.src(bound[0].value))
+                continue
+        elif isinstance(f, ast.Attribute) and isinstance(f.value, ast.Name):
+            # method of a local object: where is the object created?
+            creates = [n for n in A.walk_local(fn) if isinstance(n, ast.Assign) and isinstance(n.value, ast.Call)
+                       and any(isinstance(t, ast.Name) and t.id == f.value.id for t in n.targets)]
+            if creates and all(loop not in list(A.ancestors(n)) for n in creates):
+                ctx.violation("C18-b", c, "values are stored through `%s`, a method of the object `%s` created once outside the "
+                              "loop: a stateful serialiser (pickle.Pickler memo) records a value object that is yielded again after "
+                              "being changed as a reference to its first state, so later runs replay different values"
+                              % (A.src(f), f.value.id), construct="stateful-serialiser:%s" % A.src(f))
+                continue
+        if verdict is True:
+            ctx.ok("C18-b", c, "each value is stored by a stateless dump function (%s)" % A.src(c.func))
+        elif verdict is False:
+            ctx.violation("C18-b", c, "self.%s is not (only) a module-level pickle dump function" % A.src(c.func),
+                          construct="dump-field")
+        else:
+            ctx.unknown("C18-b", c, "cannot classify the callee `%s` that stores the value" % A.src(f))
 
 
 def check_reload(ctx):
@@ -237,8 +286,17 @@ def check_reload(ctx):
     ctx.check("C18-c", [p for p in A.func_params(lf) if p != "self"] == [], lf, "_load_flow takes parameters: the replay could depend "
               "on an upstream object", detail="_load_flow takes no upstream object", construct="loader-params")
     # loader: yields the loaded value, loop ends only in the EOFError handler
-    loads = [c for c in A.walk_local(lf) if isinstance(c, ast.Call) and A.src(c.func) == "self._load"]
-    ctx.check("C18-c", len(loads) >= 1, lf, "_load_flow does not call self._load", detail="loader uses self._load", construct="loader-load")
+    load_names = {t.id for n in A.walk_local(lf) if isinstance(n, ast.Assign) and isinstance(n.value, ast.Attribute)
+                  and n.value.attr in ("load", "_load") for t in n.targets if isinstance(t, ast.Name)}
+
+    def is_load(c):
+        if not isinstance(c, ast.Call):
+            return False
+        if isinstance(c.func, ast.Attribute) and c.func.attr in ("_load", "load"):
+            return True
+        return isinstance(c.func, ast.Name) and c.func.id in load_names
+    loads = [c for c in A.walk_local(lf) if is_load(c)]
+    ctx.require(len(loads) >= 1, "C18-c", lf, "_load_flow: no load call recognised")
     handlers = [h for h in A.walk_local(lf) if isinstance(h, ast.ExceptHandler)]
     for h in handlers:
         canon = res.canon(h.type) if h.type is not None and not isinstance(h.type, ast.Tuple) else None
@@ -251,12 +309,12 @@ def check_reload(ctx):
         for i, y in ys:
             v = y.value if isinstance(y, ast.Yield) else None
             ok = False
-            if isinstance(v, ast.Call) and A.src(v.func) == "self._load":
+            if is_load(v):
                 ok = True
             elif isinstance(v, ast.Name):
                 for e in reversed(p.ev[:i]):
                     if e[0] == "stmt" and isinstance(e[1], ast.Assign) and any(A.src(t) == v.id for t in e[1].targets):
-                        ok = isinstance(e[1].value, ast.Call) and A.src(e[1].value.func) == "self._load"
+                        ok = is_load(e[1].value)
                         break
             ctx.check("C18-c", ok, y, "_load_flow yields `%s`, which is not the value just loaded" % (A.src(v) if v is not None else ""),
                       detail="loader yields each loaded value", path=p)
@@ -362,6 +420,8 @@ VARIANTS = [
       "                os.rename(tmp_filename, self._filename)\n                for val in flow:\n                    # if there were", ["C18-a"]),
     M("tmp-is-final", "lena/flow/cache.py", 'tmp_filename = self._filename + ".tmp"', "tmp_filename = self._filename", ["C18-a"]),
     M("yield-before-dump", "lena/flow/cache.py", "                    dump(val)\n                    yield val", "                    yield val\n                    dump(val)", ["C18-b"]),
+    V("mutant", "shared-pickler", None, None, None, ["C18-b"], edits=[
+        ("lena/flow/cache.py", "dump = lambda val: self._dump(val, f, self.protocol)", "dump = pickle.Pickler(f, self.protocol).dump", 0)]),
     M("cached-path-peeks-flow", "lena/flow/cache.py", "            return self._load_flow()", "            next(iter(flow), None)\n            return self._load_flow()", ["C18-c"]),
     M("loader-swallows", "lena/flow/cache.py", "                except EOFError:\n                    break", "                except Exception:\n                    break", ["C18-c"]),
     M("alter-keeps-all", "lena/flow/cache.py", "*seq[last_cache_filled_ind+1:]", "*seq[last_cache_filled_ind:]", ["C18-d"]),
